@@ -7,8 +7,26 @@ import vf
 
 META = {
     "claimed": True,
-    "text": "TODO",
-    "note": "TODO",
+    "text": ("Coq theorems over a Gallina model of rten-shape-inference (SymTensor, UnaryOp, BinaryOp broadcasting, ReductionOp, "
+             "symbolic_binary_op with Add/Sub/Mul/Div/Equal, Where, Identity, Cast, Neg, Shape, Size, Gather, Concat, Squeeze, Unsqueeze, "
+             "Transpose, MatMul, Gemm, ConstantOfShape, Range) and Z-valued reference semantics of these operators. PROVED for all "
+             "symbolic inputs, assignments and consistent concrete inputs (infer_sound_<op>: every Value and every expression without "
+             "generated symbols evaluates to the executed dimension/element, ranks exact): unary-like operators, Identity, Cast, Neg, "
+             "Shape, Transpose, Gemm, all reductions (Reduce*, ArgMax/ArgMin; code with fix F72), the broadcasting rule BinaryOp and "
+             "MatMul (under the hypothesis excluding the known finding F70), and the element rules of Add/Sub/Mul/Div/Equal (Equal "
+             "with C11's fixed SymExpr::range). `_refuted` witnesses for every finding (F5 Equal, F70, F71 Where, F72 reductions, F77 "
+             "Squeeze). NOT proved, only modelled and tied: the tensor-level statements for the value-carrying operators (vector "
+             "broadcasting of Add..Equal, Where, Gather, Concat, Squeeze, Unsqueeze, ConstantOfShape, Range, Size). On every run: "
+             "(a) model vs the real inference rules and reference semantics vs the real operators on generated cases; (b) for ALL "
+             "operators offering inference (deserialised by the real ONNX registry): infer, instantiate under 8 assignments (0, 1, "
+             "negatives), execute, and check every claim with the Coq evaluator -- the only coverage (a test) for operators without a "
+             "model. Findings: 7 repaired by fix commits (Where, reductions, Slice, Squeeze, executor div/pow), 6 recorded as known "
+             "(F70 Broadcast(0,1), F73 Range, F75 Slice, F76 SkipLayerNormalization, F78 Reshape: pinned by unit tests or owned by C11; "
+             "F5 until C11's fix is on main) and reported as KNOWN-FINDING only for instantiations inside the recorded class."),
+    "note": ("Trusted: Coq kernel; the correspondence sample (a test); the hook and harness; exec_ref (tied to the kernels only by the "
+             "sample). Consistency hypotheses: input expressions evaluate without i32 overflow, positive symbols >= 0, Broadcast "
+             "operands compatible; conclusions use release-build i32 evaluation; expressions with SymbolGen symbols make no claim. "
+             "Operators not exercised at all are listed in the evidence (attention, MatMulNBits, DFT/STFT, control flow, random ops)."),
     "technique": ("Coq proof per modelled operator (infer_sound_<op>) + model/implementation correspondence + "
                   "infer/instantiate/execute differential over all operators offering inference"),
 }
